@@ -25,12 +25,43 @@
        value (exact algebraic expansion, kinks excluded by explicit side conditions) for squared (both
        label kinds), hinge and squared hinge (one output and multi-class), eps-hinge, squared
        eps-hinge, Huber inside the quadratic region.
-   PARTIAL (named *_partial): the gradient of Huber outside the ball (square root) is not proved; the generic chain rule is instantiated only for the linear model.
-   ONLY COMPARED / MONITORED by tools/c06.py (not proved): cross-entropy (log-sum-exp, float model at
-     1e-12), absolute loss off perfect squares, Huber outer region, NegativeAUC (brute force pairs),
-     ZeroOneLoss weighted eval, finite-difference gradient monitor on every loss and on a non-linear model,
+     * SECOND ROUND.  (a) HuberLoss: linear region outside the ball with an explicit remainder -- over Q at all points
+       where the model's square root is exact (C06_huber_outer_gradient), and for the same code read over EVERY
+       ordered field with a square root at every point strictly outside the ball at both ends of the step
+       (C06_huber_outer_gradient_any_field; inner region C06_huber_inner_gradient_any_field): together with the
+       inner theorem the gradient is the derivative at every differentiable point, the only excluded set is the
+       sphere |p-l| = delta.  The Q table entries are the Q instance of the polymorphic functions
+       (C06_huber_abs_table_entries_are_instances).  (b) AbsoluteLoss = THE Euclidean distance (non-negative, squares
+       to |p-l|^2), batch = sum; weighted ZeroOneLoss::eval(Data,Data,weights) = weighted mean of the single-element
+       losses, independent of the batching, equal weights = the unweighted AbstractLoss::eval(Data,Data) for every
+       arrival order (the C06_weighted_zero_one theorems).  (c) cross-entropy, both label encodings, for the code read over
+       EVERY ordered field with exp/log satisfying exp(a+b) = exp a * exp b, 0 < exp a, log(exp a) = a,
+       0 < y -> exp(log y) = y:  log-sum-exp with the maximum (in fact ANY shift) subtracted = unshifted definition
+       (C06_log_sum_exp_shift), value = log sum exp - p_c = -log softmax_c, evalDerivative value = eval value,
+       gradient = softmax - one_hot, one output: value = ln(1+exp(-y x)) above the coded cut-off (-y x below it),
+       gradient = sigmoid(x) - c, = the two-class form on logits (0,x); batch = sum of the single-element calls;
+       probability-vector labels: the three batch-wide sums of the code = sum over rows of
+       (log sum exp - <t,p>) = -sum_j t_j log softmax_j when sum t = 1, gradient rows = softmax - t.
+       (d) chain rule for ANY model: ErrorFunction uses the model only through eval and
+       weightedParameterDerivative (C06Model.gen_bq); if the latter is additive over the batch and satisfies the
+       adjoint identity <wpd(x,g), dtheta> = <g, d prediction[dtheta]> (the C04 contract), the returned vector is
+       the derivative of the returned value w.r.t. the parameters (C06_error_grad_is_param_grad_generic,
+       C06_error_grad_is_param_grad_contract); unconditional for the squared loss and every contract model
+       (C06_sq_error_gradient_any_model); the linear model is an instance (C06_linear_model_is_instance) and so is
+       LinearModel >> LinearModel, which is bilinear in its parameters (C06_two_layer_contract,
+       C06_sq_error_gradient_two_layer).
+       The laws of (a)-(c) are satisfiable: the reals of the standard library with exp/ln/sqrt (Examples at the
+       end; these, and only these, depend on the standard-library axioms of the reals).
+   PARTIAL (named *_partial): kept from round 1 for reference; superseded by the theorems of the second round
+     (C06_huber_gradient_partial by C06_huber_outer_gradient*, C06_error_grad_is_param_grad_partial by *_generic).
+   ONLY COMPARED / MONITORED by tools/c06.py (not proved): that the loss gradients of cross-entropy are derivatives
+     in the analytic sense (the statement proved is the closed form softmax - one_hot; finite-difference monitor),
+     NegativeAUC (brute force pairs), finite-difference gradient monitor on every loss and on models with
+     non-linear activations, floating-point rounding (the float instantiations are compared at 1e-12),
      the OpenMP runtime actually delivering one of the modelled schedules. *)
-From Coq Require Import List Arith ZArith QArith Qabs Permutation.
+From Coq Require Import List Arith ZArith QArith Qabs Permutation Reals.
+From SharkV Require Import C06LossProofs C06GenProofs C06FieldProofs C06RealProofs.
+
 From SharkV Require Import ListAux C03Model C06Model C06Proofs C06Aux.
 Import ListNotations.
 Open Scope Q_scope.
@@ -259,6 +290,280 @@ Theorem C06_huber_gradient_partial :
 Proof. exact huber_inner_gradient. Qed.
 Print Assumptions C06_huber_gradient_partial.
 
+(* ================================ second round ================================ *)
+(* ---- (a) HuberLoss outside the ball, (b) weighted zero-one loss: exact model over Q ---- *)
+Theorem C06_huber_outer_gradient :
+  forall delta l p v t, length p = length l -> length v = length l ->
+    let n := normsq (vsub p l) in let n' := normsq (vsub (vaxpy t v p) l) in
+    delta * delta < n -> delta * delta < n' ->
+    qsqrt n * qsqrt n == n -> qsqrt n' * qsqrt n' == n' ->
+    huber_s delta l (vaxpy t v p) - huber_s delta l p
+    == t * (dot (huber_g delta l p) v
+            + t * huber_outer_rem delta (qsqrt n) (qsqrt n') (dot (vsub p l) v) (normsq v) t).
+Proof. exact huber_outer_gradient. Qed.
+Print Assumptions C06_huber_outer_gradient.
+
+Theorem C06_huber_abs_table_entries_are_instances :
+  (forall delta l p, huber_s delta l p == huberA_s Q 0 1 Qplus Qminus Qmult Qdiv Qltb qsqrt delta l p) /\
+  (forall delta l p, huber_g delta l p = huberA_g Q 0 Qplus Qminus Qmult Qdiv Qltb qsqrt delta l p) /\
+  (forall b, abs_eval b == absA_eval Q 0 Qplus Qminus Qmult qsqrt b).
+Proof. exact (conj huber_s_instance (conj huber_g_instance abs_eval_instance)). Qed.
+Print Assumptions C06_huber_abs_table_entries_are_instances.
+
+Theorem C06_weighted_zero_one_is_weighted_mean :
+  forall thr (d : @data (nat * vec)) w,
+    zow_eval thr d w == qsum (map (fun ew => snd ew * zov_eval thr [fst ew]) (combine (elems d) w)) / qsum w.
+Proof. exact zow_weighted_mean. Qed.
+Print Assumptions C06_weighted_zero_one_is_weighted_mean.
+
+Theorem C06_weighted_zero_one_batching_invariant :
+  forall thr (d1 d2 : @data (nat * vec)) w, elems d1 = elems d2 -> zow_eval thr d1 w = zow_eval thr d2 w.
+Proof. exact zow_batching_invariant. Qed.
+Print Assumptions C06_weighted_zero_one_batching_invariant.
+
+Theorem C06_weighted_zero_one_equal_weights :
+  forall thr c (d : @data (nat * vec)) w arrived,
+    ~ c == 0 -> length w = nelems d -> (forall x, In x w -> x == c) ->
+    Permutation arrived (map (fun b => [zov_eval thr b]) d) ->
+    zow_eval thr d w == zov_eval thr (elems d) / Qn (nelems d) /\
+    zow_eval thr d w == nth 0 (finish arrived (nelems d)) 0.
+Proof. exact zow_equal_weights. Qed.
+Print Assumptions C06_weighted_zero_one_equal_weights.
+
+(* ---- (d) the chain rule for any model ---- *)
+Theorem C06_error_grad_is_param_grad_generic :
+  forall (eval0 eval1 : vec -> vec) (wpd0 : list (vec * vec) -> vec) (dim : nat) (k : lossk) (dtheta : vec) (t : Q) (r : elem -> Q),
+    (forall xg, veq (wpd0 xg) (vsum (map (fun p => wpd0 [p]) xg))) ->
+    forall threads (d : @data elem), (1 <= threads)%nat ->
+      (forall e, In e (elems d) -> gen_elem_expansion eval0 eval1 wpd0 dim k dtheta t r e) ->
+      nth 0 (errfn (gen_bq_eval eval1 dim k) threads d) 0 - nth 0 (errfn (gen_bq_eval eval0 dim k) threads d) 0
+      == t * (pdot (tl (errfn (gen_bq eval0 wpd0 dim k) threads d)) dtheta + t * (qsum (map r (elems d)) / Qn (nelems d))).
+Proof. exact gen_error_grad_is_param_grad. Qed.
+Print Assumptions C06_error_grad_is_param_grad_generic.
+
+Theorem C06_error_grad_is_param_grad_contract :
+  forall meval mwpd mdp mrp np nin nout, model_contract meval mwpd mdp mrp np nin nout ->
+  forall k theta dtheta t rl, length theta = np -> length dtheta = np ->
+  forall threads (d : @data elem), (1 <= threads)%nat ->
+    (forall e, In e (elems d) -> loss_expansion meval mdp mrp nin nout k theta dtheta t rl e) ->
+    nth 0 (errfn (gen_bq_eval (meval (vaxpy t dtheta theta)) nout k) threads d) 0
+    - nth 0 (errfn (gen_bq_eval (meval theta) nout k) threads d) 0
+    == t * (pdot (tl (errfn (gen_bq (meval theta) (mwpd theta) nout k) threads d)) dtheta
+            + t * (qsum (map (contract_rem meval mrp nout k theta dtheta t rl) (elems d)) / Qn (nelems d))).
+Proof. exact contract_error_grad_is_param_grad. Qed.
+Print Assumptions C06_error_grad_is_param_grad_contract.
+
+Theorem C06_sq_error_gradient_any_model :
+  forall meval mwpd mdp mrp np nin nout, model_contract meval mwpd mdp mrp np nin nout ->
+  forall theta dtheta t, length theta = np -> length dtheta = np ->
+  forall threads (d : @data elem), (1 <= threads)%nat -> sq_shapes nin nout d ->
+    nth 0 (errfn (gen_bq_eval (meval (vaxpy t dtheta theta)) nout LSq) threads d) 0
+    - nth 0 (errfn (gen_bq_eval (meval theta) nout LSq) threads d) 0
+    == t * (pdot (tl (errfn (gen_bq (meval theta) (mwpd theta) nout LSq) threads d)) dtheta
+            + t * (qsum (map (contract_rem meval mrp nout LSq theta dtheta t (sq_rl mdp mrp theta dtheta t)) (elems d)) / Qn (nelems d))).
+Proof. exact sq_gen_error_gradient. Qed.
+Print Assumptions C06_sq_error_gradient_any_model.
+
+Theorem C06_linear_model_is_instance :
+  (forall k m, lin_bq k m = gen_bq (lin_eval m) lin_wpd (length (lb m)) k) /\
+  (forall k m, lin_bq_eval k m = gen_bq_eval (lin_eval m) (length (lb m)) k) /\
+  forall k nin nout m dm t r, lin_wf nin nout m -> lin_wf nin nout dm ->
+    forall e, elem_expansion k nin nout m dm t r e ->
+      gen_elem_expansion (lin_eval m) (lin_eval (madd t dm m)) lin_wpd nout k (lin_params dm) t r e.
+Proof. exact (conj lin_bq_is_gen (conj lin_bq_eval_is_gen lin_instance_of_generic)). Qed.
+Print Assumptions C06_linear_model_is_instance.
+
+Theorem C06_two_layer_contract :
+  forall nin nh nout m dm, net2_wf nin nh nout m -> net2_wf nin nh nout dm ->
+    (forall xg, veq (net2_wpd m xg) (vsum (map (fun p => net2_wpd m [p]) xg))) /\
+    (forall t x, veql (net2_eval (net2_madd t dm m) x)
+                      (vaxpy t (vaxpy t (net2_rp dm x) (net2_dp m dm x)) (net2_eval m x))) /\
+    (forall x g, length x = nin -> length g = nout ->
+       pdot (net2_wpd1 m x g) (net2_params dm) == dot g (net2_dp m dm x)).
+Proof.
+  exact (fun nin nh nout m dm Hm Hdm =>
+           conj (net2_wpd_sum m)
+                (conj (fun t x => proj1 (net2_eval_expansion nin nh nout t m dm x Hm Hdm))
+                      (fun x g Hx Hg => net2_adjoint nin nh nout m dm x g Hm Hdm Hx Hg))).
+Qed.
+Print Assumptions C06_two_layer_contract.
+
+Theorem C06_sq_error_gradient_two_layer :
+  forall nin nh nout m dm t threads (d : @data elem),
+    net2_wf nin nh nout m -> net2_wf nin nh nout dm -> sq_shapes nin nout d -> (1 <= threads)%nat ->
+    nth 0 (net2_ef_eval LSq (net2_madd t dm m) threads d) 0 - nth 0 (net2_ef_eval LSq m threads d) 0
+    == t * (pdot (tl (net2_ef_evald LSq m threads d)) (net2_params dm)
+            + t * (qsum (map (net2_sq_rem m dm t) (elems d)) / Qn (nelems d))).
+Proof. exact net2_sq_error_gradient. Qed.
+Print Assumptions C06_sq_error_gradient_two_layer.
+
+(* ---- (a)-(c) the Section-polymorphic loss code over every ordered field with sqrt / exp / log ---- *)
+Declare Scope AF_scope.
+Section AnyOrderedField.
+Variable A : Type.
+Variables (zero one : A) (add sub mul div : A -> A -> A) (opp inv : A -> A) (ltb : A -> A -> bool).
+Variables (expA logA sqrtA : A -> A) (ofnat : nat -> A).
+Hypothesis OF : OrdFieldLaws zero one add sub mul div opp inv ltb.
+Hypothesis NA : OfnatLaws zero one add ofnat.
+Hypothesis SQ : SqrtLaws zero mul ltb sqrtA.
+Hypothesis EL : ExpLogLaws zero add mul ltb expA logA.
+
+Local Notation "0" := zero : AF_scope.
+Local Notation "1" := one : AF_scope.
+Local Infix "+" := add : AF_scope.
+Local Infix "*" := mul : AF_scope.
+Local Infix "-" := sub : AF_scope.
+Local Infix "/" := div : AF_scope.
+Local Notation "- x" := (opp x) : AF_scope.
+Local Notation "a < b" := (lt ltb a b) : AF_scope.
+Local Open Scope AF_scope.
+Local Notation asum := (asum A zero add).
+Local Notation adot := (adot A zero add mul).
+Local Notation asub := (asub A sub).
+Local Notation anormsq := (anormsq A zero add mul).
+Local Notation avaxpy := (avaxpy A add mul).
+Local Notation huberA_s := (huberA_s A zero one add sub mul div ltb sqrtA).
+Local Notation huberA_g := (huberA_g A zero add sub mul div ltb sqrtA).
+Local Notation huberA_eval := (huberA_eval A zero one add sub mul div ltb sqrtA).
+Local Notation huberA_evald := (huberA_evald A zero one add sub mul div ltb sqrtA).
+Local Notation absA_single := (absA_single A zero add sub mul sqrtA).
+Local Notation absA_eval := (absA_eval A zero add sub mul sqrtA).
+Local Notation ce_eval := (ce_eval A zero one add sub mul opp expA logA ltb ofnat).
+Local Notation ce_evald := (ce_evald A zero one add sub mul div opp expA logA ltb ofnat).
+Local Notation ce_batch_eval := (ce_batch_eval A zero one add sub mul opp expA logA ltb ofnat).
+Local Notation ce_batch_evald := (ce_batch_evald A zero one add sub mul div opp expA logA ltb ofnat).
+Local Notation cev_eval := (cev_eval A zero add sub mul expA logA ltb).
+Local Notation cev_evald := (cev_evald A zero add sub mul div expA logA ltb).
+Local Notation expsum := (expsum A zero add expA).
+Local Notation softmax := (softmax A zero add div expA).
+Local Notation sigmoid := (sigmoid A one add div opp expA).
+Local Notation ylabel := (ylabel A one sub mul ofnat).
+Local Notation cev_def := (cev_def A zero add sub mul expA logA).
+Local Notation ahalf := (ahalf A one add div).
+
+Theorem C06_huber_outer_gradient_any_field :
+  forall delta l p v t, length p = length l -> length v = length l ->
+    let n := anormsq (asub p l) in let n' := anormsq (asub (avaxpy t v p) l) in
+    delta * delta < n -> delta * delta < n' ->
+    huberA_s delta l (avaxpy t v p) - huberA_s delta l p
+    = t * (adot (huberA_g delta l p) v
+           + t * huberA_outer_rem A one add sub mul div delta (sqrtA n) (sqrtA n') (adot (asub p l) v) (anormsq v) t).
+Proof. exact (huberA_outer_gradient A zero one add sub mul div opp inv ltb sqrtA OF SQ). Qed.
+
+Theorem C06_huber_inner_gradient_any_field :
+  forall delta l p v t, length p = length l -> length v = length l ->
+    ltb (delta * delta) (anormsq (asub p l)) = false ->
+    ltb (delta * delta) (anormsq (asub (avaxpy t v p) l)) = false ->
+    huberA_s delta l (avaxpy t v p) - huberA_s delta l p
+    = t * (adot (huberA_g delta l p) v + t * (ahalf * anormsq v)).
+Proof. exact (huberA_inner_gradient A zero one add sub mul div opp inv ltb sqrtA OF). Qed.
+
+Theorem C06_huber_generic_paths_and_batch :
+  forall delta b,
+    fst (huberA_evald delta b) = huberA_eval delta b /\
+    huberA_eval delta b = asum (map (fun e => huberA_eval delta [e]) b) /\
+    snd (huberA_evald delta b) = map (fun e => nth 0 (snd (huberA_evald delta [e])) []) b.
+Proof.
+  exact (fun delta b => conj (huberA_paths A zero one add sub mul div ltb sqrtA delta b)
+                             (huberA_batch_is_sum A zero one add sub mul div opp inv ltb sqrtA OF delta b)).
+Qed.
+
+Theorem C06_absolute_loss_is_distance :
+  forall l p, absA_single l p * absA_single l p = anormsq (asub p l) /\ ~ absA_single l p < 0.
+Proof. exact (absA_is_distance A zero one add sub mul div opp inv ltb sqrtA OF SQ). Qed.
+
+Theorem C06_absolute_loss_batch_is_sum :
+  forall b, absA_eval b = asum (map (fun e => absA_eval [e]) b).
+Proof. exact (absA_batch_is_sum A zero one add sub mul div opp inv ltb sqrtA OF). Qed.
+
+Theorem C06_log_sum_exp_shift :
+  forall p m, p <> [] -> logA (asum (map (fun x => expA (x - m)) p)) + m = logA (expsum p).
+Proof. exact (lse_shift A zero one add sub mul div opp inv ltb expA logA OF EL). Qed.
+
+Theorem C06_cross_entropy_multiclass_value :
+  forall c p, (length p =? 1)%nat = false -> p <> [] ->
+    ce_eval c p = logA (expsum p) - nth c p 0 /\
+    ce_eval c p = - logA (expA (nth c p 0) / expsum p).
+Proof.
+  exact (fun c p Hd Hne => conj (ce_eval_multiclass A zero one add sub mul div opp inv ltb expA logA ofnat OF EL c p Hd Hne)
+                                (ce_eval_is_neg_log_softmax A zero one add sub mul div opp inv ltb expA logA ofnat OF EL c p Hd Hne)).
+Qed.
+
+Theorem C06_cross_entropy_derivative_call_returns_eval_value :
+  forall c p, fst (ce_evald c p) = ce_eval c p.
+Proof. exact (ce_paths A zero one add sub mul div opp inv ltb expA logA ofnat OF). Qed.
+
+Theorem C06_cross_entropy_gradient_is_softmax_minus_one_hot :
+  forall c p j, (length p =? 1)%nat = false -> (j < length p)%nat ->
+    nth j (snd (ce_evald c p)) 0 = expA (nth j p 0) / expsum p - (if (j =? c)%nat then 1 else 0).
+Proof. exact (ce_grad_multiclass_coord A zero one add sub mul div opp inv ltb expA logA ofnat OF EL). Qed.
+
+Theorem C06_cross_entropy_one_output_value :
+  forall c x,
+    (ltb (x * ylabel c) (- ofnat 200) = false -> ce_eval c [x] = logA (1 + expA (- ylabel c * x))) /\
+    (ltb (x * ylabel c) (- ofnat 200) = true -> ce_eval c [x] = - (x * ylabel c)).
+Proof.
+  exact (fun c x => conj (ce_eval_binary A zero one add sub mul opp ltb expA logA ofnat c x)
+                         (ce_eval_binary_cutoff A zero one add sub mul opp ltb expA logA ofnat c x)).
+Qed.
+
+Theorem C06_cross_entropy_one_output_gradient :
+  forall c x, (c < 2)%nat -> snd (ce_evald c [x]) = [sigmoid x - ofnat c].
+Proof. exact (ce_grad_binary A zero one add sub mul div opp inv ltb expA logA ofnat OF NA EL). Qed.
+
+Theorem C06_cross_entropy_one_output_is_two_class :
+  forall c x, (c < 2)%nat -> ltb (x * ylabel c) (- ofnat 200) = false -> ce_eval c [x] = ce_eval c [0; x].
+Proof. exact (ce_binary_is_two_class A zero one add sub mul div opp inv ltb expA logA ofnat OF NA EL). Qed.
+
+Theorem C06_cross_entropy_batch_is_sum :
+  forall b,
+    ce_batch_eval b = asum (map (fun e => ce_batch_eval [e]) b) /\
+    fst (ce_batch_evald b) = asum (map (fun e => fst (ce_batch_evald [e])) b) /\
+    snd (ce_batch_evald b) = map (fun e => nth 0 (snd (ce_batch_evald [e])) []) b /\
+    fst (ce_batch_evald b) = ce_batch_eval b /\
+    (forall e, ce_batch_eval [e] = ce_eval (fst e) (snd e)).
+Proof. exact (ce_batch_is_sum A zero one add sub mul div opp inv ltb expA logA ofnat OF). Qed.
+
+Theorem C06_cross_entropy_vector_labels_batch_is_sum :
+  forall b,
+    cev_eval b = asum (map (fun e => cev_eval [e]) b) /\
+    fst (cev_evald b) = cev_eval b /\
+    snd (cev_evald b) = map (fun e => nth 0 (snd (cev_evald [e])) []) b.
+Proof. exact (cev_batch_is_sum A zero one add sub mul div opp inv ltb expA logA OF). Qed.
+
+Theorem C06_cross_entropy_vector_labels_value :
+  forall b, (forall e, In e b -> snd e <> []) ->
+    cev_eval b = asum (map (fun e => cev_def (fst e) (snd e)) b).
+Proof. exact (cev_eval_is_definition A zero one add sub mul div opp inv ltb expA logA OF EL). Qed.
+
+Theorem C06_cross_entropy_vector_labels_is_cross_entropy :
+  forall t p, p <> [] -> length t = length p -> asum t = 1 ->
+    cev_def t p = - asum (amap2 A (fun tj pj => tj * logA (expA pj / expsum p)) t p).
+Proof. exact (cev_def_is_cross_entropy A zero one add sub mul div opp inv ltb expA logA OF EL). Qed.
+
+Theorem C06_cross_entropy_vector_labels_gradient :
+  forall b i, (i < length b)%nat -> snd (nth i b ([], [])) <> [] ->
+    nth i (snd (cev_evald b)) [] = amap2 A sub (softmax (snd (nth i b ([], [])))) (fst (nth i b ([], []))).
+Proof. exact (cev_grad A zero one add sub mul div opp inv ltb expA logA OF EL). Qed.
+End AnyOrderedField.
+Print Assumptions C06_huber_outer_gradient_any_field.
+Print Assumptions C06_huber_inner_gradient_any_field.
+Print Assumptions C06_huber_generic_paths_and_batch.
+Print Assumptions C06_absolute_loss_is_distance.
+Print Assumptions C06_absolute_loss_batch_is_sum.
+Print Assumptions C06_log_sum_exp_shift.
+Print Assumptions C06_cross_entropy_multiclass_value.
+Print Assumptions C06_cross_entropy_derivative_call_returns_eval_value.
+Print Assumptions C06_cross_entropy_gradient_is_softmax_minus_one_hot.
+Print Assumptions C06_cross_entropy_one_output_value.
+Print Assumptions C06_cross_entropy_one_output_gradient.
+Print Assumptions C06_cross_entropy_one_output_is_two_class.
+Print Assumptions C06_cross_entropy_batch_is_sum.
+Print Assumptions C06_cross_entropy_vector_labels_batch_is_sum.
+Print Assumptions C06_cross_entropy_vector_labels_value.
+Print Assumptions C06_cross_entropy_vector_labels_is_cross_entropy.
+Print Assumptions C06_cross_entropy_vector_labels_gradient.
+
 (* ---- the hypotheses are satisfiable ---- *)
 Example ex_ranges : thread_ranges 3 7 = [(0, 3); (3, 5); (5, 7)]%nat.
 Proof. reflexivity. Qed.
@@ -286,3 +591,50 @@ Proof.
 Qed.
 Example ex_eval : map Qred (ef_evald LSq ex_m 2 [[ex_e]; [ex_e]]) = map Qred (ef_evald LSq ex_m 1 [[ex_e; ex_e]]).
 Proof. vm_compute. reflexivity. Qed.
+
+(* ---- second round: the hypotheses are satisfiable ---- *)
+Example ex_huber_outer :
+  let n := normsq (vsub [3; 4] [0; 0]) in let n' := normsq (vsub (vaxpy 1 [3; 4] [3; 4]) [0; 0]) in
+  1 * 1 < n /\ 1 * 1 < n' /\ qsqrt n * qsqrt n == n /\ qsqrt n' * qsqrt n' == n'.
+Proof. vm_compute. repeat split. Qed.
+
+Definition ex_zd : @data (nat * vec) := [[(1%nat, [1]); (0%nat, [2])]; [(1%nat, [-(1)])]].
+Example ex_zow_value : zow_eval 0 ex_zd [2; 2; 2] == 2 # 3.
+Proof. vm_compute. reflexivity. Qed.
+Example ex_zow_equal_weights_hyps : ~ 2 == 0 /\ length [2; 2; 2] = nelems ex_zd /\ forall x, In x [2; 2; 2] -> x == 2.
+Proof.
+  split; [discriminate|]. split; [reflexivity|]. intros x [<-|[<-|[<-|[]]]]; reflexivity.
+Qed.
+
+Example ex_gen_expansion :
+  gen_elem_expansion (lin_eval ex_m) (lin_eval (madd (1#4) ex_dm ex_m)) lin_wpd 2 LSq (lin_params ex_dm) (1#4)
+                     (fun e => (1#2) * normsq (lin_eval ex_dm (fst e))) ex_e.
+Proof. apply (lin_instance_of_generic LSq 2 2 ex_m ex_dm); [apply ex_wf | apply ex_wf | apply ex_expansion]. Qed.
+
+Definition ex_net : net2 := {| n1 := {| lW := [[1; 2]]; lb := [1#2] |}; n2 := {| lW := [[1]; [-(2)]]; lb := [0; 1] |} |}.
+Definition ex_dnet : net2 := {| n1 := {| lW := [[0; 1]]; lb := [1] |}; n2 := {| lW := [[3]; [1#2]]; lb := [1; 0] |} |}.
+Example ex_net_wf : net2_wf 2 1 2 ex_net /\ net2_wf 2 1 2 ex_dnet /\ sq_shapes 2 2 [[ex_e]; [ex_e]].
+Proof.
+  split; [|split].
+  - split; (split; [reflexivity|]; split; [reflexivity|]); intros row H; simpl in H; intuition (subst; reflexivity).
+  - split; (split; [reflexivity|]; split; [reflexivity|]); intros row H; simpl in H; intuition (subst; reflexivity).
+  - intros e H. simpl in H. intuition (subst; split; reflexivity).
+Qed.
+(* the two-layer gradient theorem on these data, evaluated: both sides are the same rational number *)
+Example ex_net_gradient_check :
+  Qred (nth 0 (net2_ef_eval LSq (net2_madd (1#2) ex_dnet ex_net) 2 [[ex_e]; [ex_e]]) 0 - nth 0 (net2_ef_eval LSq ex_net 2 [[ex_e]; [ex_e]]) 0)
+  = Qred ((1#2) * (pdot (tl (net2_ef_evald LSq ex_net 2 [[ex_e]; [ex_e]])) (net2_params ex_dnet)
+                   + (1#2) * (qsum (map (net2_sq_rem ex_net ex_dnet (1#2)) (elems [[ex_e]; [ex_e]])) / Qn (nelems [[ex_e]; [ex_e]])))).
+Proof. vm_compute. reflexivity. Qed.
+
+(* the laws of an ordered field with sqrt / exp / log are satisfiable: the reals (standard-library axioms) *)
+Example ex_laws_satisfiable :
+  OrdFieldLaws 0%R 1%R Rplus Rminus Rmult Rdiv Ropp Rinv Rltb /\ OfnatLaws 0%R 1%R Rplus INR /\
+  SqrtLaws 0%R Rmult Rltb sqrt /\ ExpLogLaws 0%R Rplus Rmult Rltb exp ln.
+Proof. exact (conj R_ordered_field (conj R_ofnat (conj R_sqrt R_explog))). Qed.
+Print Assumptions ex_laws_satisfiable.
+Example ex_side_conditions_satisfiable :
+  (lt Rltb (1 * 1)%R (anormsq R 0%R Rplus Rmult (asub R Rminus [3; 4] [0; 0])%R) /\
+   lt Rltb (1 * 1)%R (anormsq R 0%R Rplus Rmult (asub R Rminus (avaxpy R Rplus Rmult 1 [1; 0] [3; 4]) [0; 0])%R)) /\
+  Rltb (1 * ylabel R 1%R Rminus Rmult INR 1) (- INR 200)%R = false.
+Proof. exact (conj R_huber_outer_side_conditions R_ce_no_cutoff). Qed.
